@@ -318,7 +318,7 @@ func runChild(args []string, logPath string) (int, error) {
 	defer lf.Close()
 	cmd.Stdout = lf
 	cmd.Stderr = lf
-	cmd.Env = append(os.Environ(), "GORACE=halt_on_error=0 log_path="+logPath+".race")
+	cmd.Env = append(os.Environ(), "GORACE=halt_on_error=0 exitcode=0 log_path="+logPath+".race")
 	err = cmd.Run()
 	if err == nil {
 		return 0, nil
@@ -668,6 +668,12 @@ func parentMain(m *Monitor, tier string, seed uint64) int {
 		if len(total.Fingerprints) < m.MinDistinct {
 			fmt.Printf("BROKEN-RUN property=%s observed %d distinct non-trivial cases, need %d\n", m.ID, len(total.Fingerprints), m.MinDistinct)
 			return 2
+		}
+		for k, min := range m.MinCounters {
+			if counters[k] < min {
+				fmt.Printf("BROKEN-RUN property=%s counter %s=%d, need at least %d\n", m.ID, k, counters[k], min)
+				return 2
+			}
 		}
 	}
 	return exit
